@@ -53,6 +53,8 @@ def oracle(case):
     seed = case['seed'] if case['seed_kind'] == 'int' else np.random.RandomState(case['seed'])
     if case['how'] == 'set':
         cop = S.make_copula(fam, th, tau=tau, random_state=seed)
+        # the parameter as callers hold it: a Python float, a numpy scalar or a 0-d array (from a dict, a JSON file, a fit)
+        cop.theta = {0: float(th), 1: np.float64(th), 2: np.array(float(th))}[case['seed'] % 3]
     else:
         X0 = ref.sample_ref(fam, th, 600, np.random.RandomState(case['fit_seed']))
         X0 = np.clip(X0, 0, 1)
@@ -86,6 +88,8 @@ def oracle(case):
     else:
         X = np.asarray(value(cop.sample, n, what='%s.sample' % type(cop).__name__))
     require(X.shape == (n, 2), 'sample(%d) returned shape %s' % (n, X.shape), tag='shape')
+    require(float(cop.theta) == theta and float(cop.tau) == model_tau, '%s: sampling changed the model: theta %r -> %r, tau %r -> %r'
+            % (fam, theta, cop.theta, model_tau, cop.tau), tag='model-changed')
     require(np.all(np.isfinite(X)), 'sample contains non-finite values', tag='finite')
     require(np.all((X >= 0) & (X <= 1)), 'sample outside [0,1]: min %r max %r' % (X.min(), X.max()), tag='range')
     # a uniform column is continuous: n float64 draws collide with probability ~ n^2 / 2^53 (4e-8 for n = 20000), and
